@@ -223,6 +223,7 @@ type c18Gen struct {
 	left int64
 	pkt  [188]byte
 	off  int
+	c    *core.Ctx
 }
 
 func (g *c18Gen) Read(p []byte) (int, error) {
@@ -231,6 +232,9 @@ func (g *c18Gen) Read(p []byte) (int, error) {
 	}
 	k := copy(p, g.pkt[g.off:])
 	g.off = (g.off + k) % 188
+	if g.c != nil && (g.left>>24) != ((g.left-int64(k))>>24) {
+		g.c.Tick() // data is moving: this one call legitimately takes seconds
+	}
 	g.left -= int64(k)
 	return k, nil
 }
@@ -238,7 +242,7 @@ func (g *c18Gen) Read(p []byte) (int, error) {
 func c18Huge(s *C18Script, c *core.Ctx) {
 	c.Probe("more_than_4gib_in_one_call")
 	total := int64(s.Packets) * 188
-	g := &c18Gen{left: total}
+	g := &c18Gen{left: total, c: c}
 	g.pkt[0], g.pkt[3] = 0x47, 0x10
 	delivered := int64(0)
 	w := packet.IOWriter(packet.PacketWriterFunc(func(p *packet.Packet) (int, error) { delivered++; return 188, nil }))
